@@ -74,6 +74,9 @@ def main(tier):
             raise MachineryError("WeightBuffer %s: expected %s, got %s\n%s" % (cfg, want, res["status"], res["output"][-1500:]))
         run.add_mc("WeightBuffer/" + cfg, res)
     jobs += corpus.draw(10 if tier == "quick" else 150, sd + 13, families=["pruned", "wide", "tied"])
+    # graph shapes (corpus_shapes.py); emphasis: depth-changing memory-only operators between NPU operators in spilling
+    # memory modes, transposes of non-square feature maps, tensors leaving their subgraph, few channels on two cores
+    jobs += corpus.shape_jobs(sd, tier, extra=["reshape_between"] * 3 + ["tr_hw"] * 2 + ["skip_out", "tiny_depth", "fsgroups", "fsgroups"], thorough=25)
 
     def both(nng, arch, res):
         return {"fs": faststorage.extractor(nng, arch, res), "wb": weightbuf.extract(nng, arch, res)}
